@@ -69,3 +69,9 @@ Proof. reflexivity. Qed.
 (* round 7: Dispose.Close was found and its latch classified *)
 Lemma dispose_latch_shape_known : DisposeLatchShapeFound = true.
 Proof. reflexivity. Qed.
+
+(* round 8: RegisterTunnel and the OnClosed closure of handleConnection were found and classified *)
+Lemma register_tunnel_shape_known : RegisterTunnelShapeFound = true.
+Proof. reflexivity. Qed.
+Lemma mapping_onclosed_shape_known : MappingOnClosedFound = true.
+Proof. reflexivity. Qed.
